@@ -108,7 +108,6 @@ pub struct Visitor<'a> {
     pub(crate) env: Environment,
     pub(crate) style_rule_ignoring_at_root: Option<ExtendedSelector>,
     // avoid emitting duplicate warnings for the same span
-    pub(crate) warnings_emitted: HashSet<Span>,
     pub(crate) media_queries: Option<Vec<MediaQuery>>,
     pub(crate) media_query_sources: Option<IndexSet<MediaQuery>>,
     pub(crate) extender: ExtensionStore,
@@ -152,7 +151,6 @@ impl<'a> Visitor<'a> {
             declaration_name: None,
             style_rule_ignoring_at_root: None,
             flags,
-            warnings_emitted: HashSet::new(),
             media_queries: None,
             media_query_sources: None,
             env: Environment::new(),
@@ -1585,14 +1583,14 @@ impl<'a> Visitor<'a> {
     }
 
     fn visit_warn_rule(&mut self, warn_rule: AstWarn) -> SassResult<()> {
-        if self.warnings_emitted.insert(warn_rule.span) {
-            let message = match self.visit_expr(warn_rule.value)? {
-                // a string is logged as its text, not as the quoted CSS string
-                Value::String(text, ..) => text,
-                value => value.to_css_string(warn_rule.span, self.options.is_compressed())?,
-            };
-            self.emit_warning(&message, warn_rule.span);
-        }
+        // `@warn` is never de-duplicated: every execution is evaluated and delivered
+        // (only deprecation warnings are limited to one per location)
+        let message = match self.visit_expr(warn_rule.value)? {
+            // a string is logged as its text, not as the quoted CSS string
+            Value::String(text, ..) => text,
+            value => value.to_css_string(warn_rule.span, self.options.is_compressed())?,
+        };
+        self.emit_warning(&message, warn_rule.span);
 
         Ok(())
     }
